@@ -290,6 +290,17 @@ class Closure:
         self.cells = c
 
 
+class AddrV:
+    """address of an Rc allocation (Rc::as_ptr / into_raw): modelled as identified with the structure of the node it
+    points to - equal structure <=> equal address - which is what the sharing obligation of C13 establishes for
+    table-owned diagrams; any arithmetic on it is unsupported"""
+    __slots__ = ('inner',)
+    cells = EMPTY
+
+    def __init__(self, inner):
+        self.inner = inner
+
+
 class PyFn:
     """a harness-supplied function value (symbolic transformer closure)"""
     __slots__ = ('fn',)
@@ -602,6 +613,8 @@ def merge(c, a, b, ctx=None):
         if a == b:
             return a
         raise Unmergeable()
+    if ta is AddrV:
+        return AddrV(merge(c, a.inner, b.inner, ctx))
     if ta is TableV:
         return a
     if ta is MapV:
@@ -703,6 +716,8 @@ class Veq:
             return sa == sb
         if isinstance(a, Opaque):
             return a.tag == b.tag
+        if isinstance(a, AddrV):
+            return self.eq(a.inner, b.inner)
         raise EngineError('veq on ' + type(a).__name__)
 
 
